@@ -28,6 +28,12 @@ THEOREMS = [
     "C05_discr_call_history_free", "C05_discr_history", "C05_discr_variant_outcome_propagates",
 ]
 
+TYPED_THEOREMS = [
+    "C05_typed_link", "C05_typed_outcomes", "C05_typed_first_bad", "C05_typed_cause", "C05_typed_nested_cause",
+    "C05_list_exn", "C05_list_ok", "C05_list_not_iterable", "C05_dict_exn", "C05_dict_not_mapping", "C05_tuplefix_exn",
+    "C05_typeddict_exn", "C05_namedtuple_no_silent_default", "C05_namedtuple_exn",
+]
+
 UNION_MEMBERS = ["int", "float", "bool", "str", "None", "date", "UUID", "List[int]", "Dict[str, int]", "Inner",
                  "Color", "Any", "Tuple[int, str]"]
 SCALARS = {"int": "SInt", "float": "SFloat", "bool": "SBool", "str": "SStr", "None": "SNone"}
@@ -651,6 +657,10 @@ def run(ctx: vlib.Ctx):
         "value[str] on non-mappings raises TypeError, registry[tag] on an unhashable tag raises TypeError",
         "harness/props/c05_gen.py, c05_oracle.py: schema materialiser, independent computation of nullable/ident/keys/"
         "defaults per field (DESIGN A.2), value and outcome encoders, reference acceptance predicate",
+        "ErrsTy.v: error-faithful typed unpackers (ue) over TyModel's grammar/IR (cu, pdec, nt_items, td_go are TyModel's and "
+        "shared with C03); stdlib primitives (int/float/str, fromisoformat, UUID, Decimal, ip_*, Enum(), decodebytes ...) are "
+        "oracles returning a value or the exception class CPython raises - finite tables from the real leaf decoders in case "
+        "files, uninterpreted in theorems; compared with /repo on exception class + attributes + __context__ + value",
         "discriminator registry: modelled as the lazily filled tag->variant map threaded through call histories "
         "(Errs.discr_call / discr_history); variant tags are strings; registration order = iter_all_subclasses walk "
         "(depth first, definition order) as computed by the harness; compared with /repo on fresh hierarchies per history",
@@ -666,14 +676,17 @@ def run(ctx: vlib.Ctx):
         "pass through before from_dict starts",
     ]
     ctx.theorems("props/C05_errors.vo", THEOREMS)
+    ctx.theorems("props/C05_typed.vo", TYPED_THEOREMS)
     if not ctx.quick():
-        # second opinion: the independent checker re-validates the compiled property file and its cone
-        rc, log, secs = vlib.run(["timeout", "900", "coqchk", "-silent", "-o", "-Q", "theories", "Verif", "-Q", "gen", "VerifGen",
-                                  "-Q", "props", "VerifProps", "VerifProps.C05_errors"], cwd=vlib.COQ, timeout=930)
+        # second opinion: the independent checker re-validates the compiled property files and their cone
+        rc, log, secs = vlib.run(["timeout", "1500", "coqchk", "-silent", "-o", "-Q", "theories", "Verif", "-Q", "gen", "VerifGen",
+                                  "-Q", "props", "VerifProps", "VerifProps.C05_errors", "VerifProps.C05_typed"],
+                                 cwd=vlib.COQ, timeout=1530)
         ok = rc == 0 and "Axioms: <none>" in log
-        ctx.obligation("coqchk VerifProps.C05_errors (no axioms)", ok, log[-400:])
+        ctx.obligation("coqchk VerifProps.C05_errors VerifProps.C05_typed (Axioms: <none>)", ok, log[-400:])
+        ctx.trusted.append("coqchk -o on C05_errors + C05_typed: " + ("Axioms: <none>" if ok else "FAILED " + log[-200:]))
         if not ok:
-            ctx.not_shown("coqchk VerifProps.C05_errors", log[-800:])
+            ctx.not_shown("coqchk VerifProps.C05_errors/C05_typed", log[-800:])
 
     rng = ctx.rng
     n_schemas = ctx.budget(140, 2000)
